@@ -239,6 +239,11 @@ func (c *streamCtx) pairWorlds(i int) (*scanSpec, *scanSpec, string) {
 		s.GlobalDry = gdry
 		for k, name := range names {
 			g := &wgen{rng: rand.New(rand.NewSource(sd[k])), base: c.base, cfg: cfg}
+			for _, o := range names {
+				if o != name && o != controller.DefaultNodeGroup {
+					g.decoys = append(g.decoys, o)
+				}
+			}
 			g.group(s, name, k+1, nil)
 		}
 		fixSingleMargins(s)
